@@ -12,6 +12,10 @@ import (
 	"sort"
 	"strings"
 	"time"
+
+	"github.com/gr33nbl00d/caddy-revocation-validator/core"
+	"github.com/gr33nbl00d/caddy-revocation-validator/crl/crlloader"
+	"go.uber.org/zap"
 )
 
 func init() { commands["c20"] = runC20 }
@@ -46,6 +50,8 @@ func runC20(c *Ctx) {
 	hostile := []string{
 		"/../../../../escape.crl", "/a/../../b.crl", "/%2e%2e/%2e%2e/x.crl", "/..%2f..%2fy.crl", "/a%00b.crl", "/" + strings.Repeat("L", 10000) + ".crl",
 		"/ünï/çødé.crl", "/a b/c d.crl", "/crl_evil_tmp", "/..", "/.", "//double//slash", "/back\\slash", "/q?x=../../z&y=%2F", "/frag#../../f", "/same", "/./same", "/SAME",
+		// near-equal pairs: distinct strings that a careless normalisation identifies
+		"/crls/tenant%2Fissuing.crl", "/crls/tenant/issuing.crl", "/q2?x=1", "/q2?x=2", "/q2", "/slash/", "/slash", "/enc%41", "/encA", "/plus+sign", "/plus%20sign", "/plus%2Bsign",
 	}
 	before := snapshotTree(sandbox)
 	for i, h := range hostile {
@@ -66,15 +72,44 @@ func runC20(c *Ctx) {
 		nCases++
 		c.Count("hostile-location")
 		c.Nontrivial("hostile|" + h[:min(len(h), 40)])
-		// which directory belongs to this location?
+		// which directory belongs to this location?  Every location string is different from all the others,
+		// so every handshake has to bring exactly one new store identifier.
 		repo := w.V.V.VerifCRLChecker().VerifRepository()
+		fresh := 0
 		for _, id := range repo.VerifIdentifiers() {
 			if _, ok := ids[id]; !ok {
 				ids[id] = h
+				fresh++
 			}
+		}
+		if fresh != 1 {
+			shared := ""
+			if loader, err := (crlloader.DefaultCRLLoaderFactory{}).CreatePreferredCrlLoader(&core.CRLLocations{CRLDistributionPoints: []string{w.url(h)}}, zap.NewNop()); err == nil {
+				if id, err := loader.GetCRLLocationIdentifier(); err == nil {
+					shared = ids[id]
+				}
+			}
+			c.Fail("", fmt.Sprintf("distinct CRL locations share a store: %q brought %d new store identifiers (its store is the one of %q)", h, fresh, shared), map[string]string{"location": h, "shares_with": shared})
 		}
 	}
 	w.Do(refreshStep)
+	// refreshes of LOADED entries that fail (garbage, then a bad signature), then one that succeeds: nothing temporary stays
+	w.AddList("badsig", ListSpec{Serials: []int64{2}, BadSig: true})
+	for _, what := range []string{"garbage", "badsig", "good"} {
+		for _, h := range hostile {
+			w.Do(sv(h, what))
+		}
+		w.Do(refreshStep)
+		for _, e := range listDir(wd) {
+			top := strings.Split(e, string(filepath.Separator))[0]
+			if tmpRe.MatchString(top) {
+				c.Fail("", fmt.Sprintf("temporary artefact left in work_dir after a refresh that met %s: %s", what, top), map[string]string{"served": what, "left": top})
+				break
+			}
+		}
+		nCases++
+		c.Count("refresh-of-loaded=" + what)
+	}
 	after := snapshotTree(sandbox)
 	var outside, odd []string
 	for p := range after {
@@ -230,8 +265,36 @@ func runC20(c *Ctx) {
 			c.Fail("", "temporary artefact left after the cycles: "+e, e)
 		}
 	}
+	// (5) a provisioning that fails half-way (a configured crl_file is missing; a configured URL serves garbage) followed by
+	// Cleanup — what Caddy does with a module whose Provision failed — releases everything as well
+	good := w.Cfg
+	for k, bad := range []VCfg{
+		{Mode: "crl_only", Storage: "disk", SigMode: "verify", Interval: "1h", CRLFiles: []string{filepath.Join(sandbox, "missing.crl")}},
+		{Mode: "crl_only", Storage: "disk", SigMode: "verify", Interval: "1h", CRLUrls: []string{w.url("/crl_evil_tmp")}},
+	} {
+		w.Cfg = bad
+		err := w.Provision()
+		nCases++
+		c.Count("failed-provision")
+		c.Nontrivial(fmt.Sprintf("failed-provision|%d", k))
+		if err == nil {
+			closeWithTimeout(w.V)
+			w.V = nil
+			c.Fail("", "harness: a provisioning that should fail succeeded", bad)
+			continue
+		}
+		w.Cfg = good
+		if err2 := w.Provision(); err2 != nil {
+			c.Fail("", fmt.Sprintf("after a failed provisioning (%v) and Cleanup, provisioning on the same work_dir fails: %v", err, err2), map[string]string{"first": err.Error(), "second": err2.Error()})
+			break
+		}
+		w.Do(hs("h0"))
+		closeWithTimeout(w.V)
+		w.V = nil
+	}
+	w.Cfg = good
 	c.Sample(map[string]interface{}{"hostile_locations": hostile[:6], "foreign": foreign, "temps": temps, "cycles": cycles, "goroutines": []int{g0, g1}})
 	c.WriteCoqSharded("cases_C20", "From Verif Require Import Base Bytes FsNames RunFs.\nOpen Scope N_scope.\n", "fscase", items, "fs_mismatches", 100)
 	c.Rep.Cases = nCases
-	c.Rep.Rule = "a sandbox directory is diffed around a validator (disk storage) whose certificates name 18 hostile distribution points (traversal, encoded separators and NUL, 10 KB, unicode, temp-pattern look-alikes, near-equal pairs), served good or garbage; restart on the same work_dir; start-up sweep over 8 foreign look-alike names and 4 temp-pattern names (files and directories); provision/cleanup cycles on one work_dir with goroutine count; the model's hex naming and sweep recogniser are evaluated on the same digests / names"
+	c.Rep.Rule = "a sandbox directory is diffed around a validator (disk storage) whose certificates name 18 hostile distribution points (traversal, encoded separators and NUL, 10 KB, unicode, temp-pattern look-alikes, near-equal pairs), served good or garbage; restart on the same work_dir; start-up sweep over 8 foreign look-alike names and 4 temp-pattern names (files and directories); refreshes of loaded entries that meet garbage / a bad signature / a good list; provision/cleanup cycles on one work_dir with goroutine count; provisioning that fails half-way followed by Cleanup and a new provisioning; location strings pairwise distinct incl. 12 near-equal ones (%2F vs /, query values, trailing slash, %41 vs A, + vs %20 vs %2B), each must bring its own store; the model's hex naming and sweep recogniser are evaluated on the same digests / names"
 }
